@@ -212,10 +212,18 @@ func TestC14(t *testing.T) {
 				nb := off + size
 				if follow == "pad" {
 					padLen = 3 + (size+off)%9
+					if (size+off)%4 == 1 {
+						padLen = 1 + (off/4)%2 // a lone int3, or two, between the function and its neighbour
+					}
 					nb += padLen
 				}
 				// neighbour: starts with the fingerprint goom's extent scan stops at, then returns a constant
 				nbCode := append(append([]byte{}, c14prologue...), 0x90, 0xB8, 0x11, 0x22, 0x33, 0x00, 0xC3)
+				nbSkip := len(c14prologue) + 1
+				if follow == "pad" && padLen <= 2 {
+					// a neighbour that does not begin with the usual prologue: only the int3 tells where the function ends
+					nbCode, nbSkip = []byte{0xB8, 0x11, 0x22, 0x33, 0x00, 0xC3}, 0
+				}
 				switch follow {
 				case "evex":
 					nbCode = []byte{0x62, 0xF1, 0x7C, 0x48, 0x28, 0xC1, 0xB8, 0x11, 0x22, 0x33, 0x00, 0xC3} // vmovaps zmm0, zmm1; mov eax, imm; ret
@@ -248,6 +256,26 @@ func TestC14(t *testing.T) {
 				kind := fmt.Sprintf("synth/%s/extent%s/straddle%v", follow, map[bool]string{true: "<=13", false: ">13"}[extent <= 13], (off%c14Page)+13 > c14Page)
 				rep.Class(kind)
 				if perr != nil {
+					// asked again (a test that retries, two tests mocking the same tiny function): refused again
+					for attempt := 2; attempt <= 3 && extent <= 13; attempt++ {
+						var g2 *Guard
+						var perr2 error
+						func() {
+							defer func() {
+								if r := recover(); r != nil {
+									perr2 = fmt.Errorf("panic: %v", r)
+								}
+							}()
+							g2, perr2 = PtrTrampoline(entry, c14Repl, nil)
+						}()
+						rep.Eval(1)
+						if perr2 == nil && g2 != nil {
+							rep.Violate("C14/short-function-accepted", fmt.Sprintf("synthetic function of %d bytes (+%d padding) followed by %s was refused the first time and accepted at attempt %d", size, padLen, follow, attempt),
+								map[string]interface{}{"size": size, "pad": padLen, "off": off, "follow": follow, "attempt": attempt})
+							break
+						}
+						rep.Stat("synthetic_refusals_repeated", 1)
+					}
 					c14ForgetPatch(entry)
 					if !bytes.Equal(mem, shadow) {
 						rep.Violate("C14/refused-but-modified", fmt.Sprintf("synthetic size %d off %d refused (%v) but bytes changed", size, off, perr), nil)
@@ -273,7 +301,7 @@ func TestC14(t *testing.T) {
 					// the neighbour must be intact and callable
 					if follow != "pad" && follow != "func" {
 						// not callable as it stands; its bytes were compared above
-					} else if got := c14CallNeighbour(base+uintptr(nb), len(c14prologue)+1); got != 0x332211 {
+					} else if got := c14CallNeighbour(base+uintptr(nb), nbSkip); got != 0x332211 {
 						rep.Violate("C14/neighbour-corrupted", fmt.Sprintf("neighbour after synthetic size %d off %d returns %#x", size, off, got), nil)
 					}
 					if got := c14Call(entry); got != 0x5EED {
